@@ -28,3 +28,20 @@ Theorem C15_write_closed_errors : forall s w m, copen s = false ->
   refused (cstep (CWrite w m) s) = refused s ++ [(w, m)].
 Proof. exact write_closed_errors. Qed.
 Print Assumptions C15_write_closed_errors.
+
+(** "Closed ones fail safely" rests on one piece of lock discipline, checked on the access table regenerated from the Go
+    sources on every run: the output queue, the ping, close and force-close channels are only closed while the
+    websocket's mutex is held exclusively, and every send on them holds it (shared) -- so a Write either sees the
+    connection gone and returns an error, or completes its send before the channels are closed; it never sends on a
+    closed channel. *)
+From Coq Require Import String.
+From Verif Require Import M4.Access M4.AccessCheck.
+Theorem C15_queue_channels_closed_under_the_lock :
+  forallb (fun g => existsb (fun h => let '(f, a, m) := g in let '(f', a', m') := h in
+                                      String.eqb f f' && aspect_eqb a a' && String.eqb m m') the_guards)
+    [("ws.webSocket.outQueue", Content, "ws.webSocket.mutex");
+     ("ws.webSocket.pingC", Content, "ws.webSocket.mutex");
+     ("ws.webSocket.closeC", Content, "ws.webSocket.mutex");
+     ("ws.webSocket.forceCloseC", Content, "ws.webSocket.mutex")]%string = true.
+Proof. vm_compute. reflexivity. Qed.
+Print Assumptions C15_queue_channels_closed_under_the_lock.
